@@ -7,7 +7,6 @@ import (
 	"io/fs"
 	"sort"
 	"strings"
-	"time"
 )
 
 // Rec is what a snapshot records about one path.
@@ -67,16 +66,11 @@ func Snapshot(fsys FS, o SnapOpts) Snap {
 	if _, kernel := fsys.(OSFS); kernel || o.NoGuard || DefaultGuard <= 0 {
 		return snapshot(fsys, o)
 	}
-	ch := make(chan Snap, 1)
-	go func() { ch <- snapshot(fsys, o) }()
-	tm := time.NewTimer(DefaultGuard)
-	defer tm.Stop()
-	select {
-	case s := <-ch:
-		return s
-	case <-tm.C:
+	s, ok, _ := guardedCall(DefaultGuard, func() Snap { return snapshot(fsys, o) })
+	if !ok {
 		return Snap{{Path: "/", Err: "HANG"}}
 	}
+	return s
 }
 
 func snapshot(fsys FS, o SnapOpts) (snap Snap) {
